@@ -34,6 +34,7 @@ def build(E, tier):
     pm.verify_pool_release_destroy(E, "C09")
     pm.verify_pool_clear(E, "C09")
     pm.verify_pooled_client(E)
+    pm.verify_pool_ctor(E, "C09")
     pm.verify_create_client(E, "C09")       # the clients the pool creates are built from the pool's own configuration, with ignore_exc=False
 
 
